@@ -1,6 +1,6 @@
 SPECIFICATION Spec
 CONSTANTS
-  Families = {"Numeric", "Text", "Json", "Blob", "Map"}
+  Families = {"Numeric", "Text", "Json", "Blob", "Map", "Host", "Concat"}
   MaxLen = 2
   PairOps = {"add", "infer"}
   AllPairs = FALSE
@@ -15,6 +15,8 @@ INVARIANT IntGapIsIntNDV
 INVARIANT BooleansAreBits
 INVARIANT KeyZeroIsUnknown
 INVARIANT LengthRule
+INVARIANT TooLongRejected
+INVARIANT ConcatGapsStayGaps
 INVARIANT MapWritten
 INVARIANT ExportCase
 PROPERTY RequestUnchanged
